@@ -571,6 +571,8 @@ func exec(op string) (res string) {
 	case "rx", "negoh", "negos":
 		// a crash on the reader goroutine of a connection kills the process: run in the worker child
 		return childExec(op)
+	case "senderr":
+		return execSenderr(w[1], w[2:])
 	case "held":
 		return execHeld(w[1], w[2:])
 	case "flight":
@@ -953,6 +955,16 @@ func main() {
 	}
 	for i := 0; i < nNegos; i++ {
 		op, cls := genNegos(r)
+		out.Case(op, exec(op), cls, true)
+	}
+
+	// 000b. compressor errors on the send path of a real connection, every request kind (send.go)
+	nSend := 150 * mult
+	if nSend > 900 {
+		nSend = 900
+	}
+	for i := 0; i < nSend; i++ {
+		op, cls := genSenderr(r)
 		out.Case(op, exec(op), cls, true)
 	}
 
